@@ -101,9 +101,30 @@ func parseCount(s string) (int, bool) {
 	return int(v), true
 }
 
+// patByte is byte i of the pattern `p<seed>:<n>` (same formula in Oracle/C10.lean).
+func patByte(seed uint64, i int) byte { return byte((seed + 131*uint64(i) + 7*uint64(i/256)) % 256) }
+
+// parseHex reads a byte-string argument: `-` (empty), lower-case hex pairs, or `p<seed>:<n>` = n pattern bytes
+// (seed < 2^32, n <= 2^20) for values too long to spell out.
 func parseHex(s string) ([]byte, bool) {
 	if s == "-" {
 		return []byte{}, true
+	}
+	if strings.HasPrefix(s, "p") {
+		parts := strings.Split(s[1:], ":")
+		if len(parts) != 2 {
+			return nil, false
+		}
+		seed, ok1 := parseU(32, parts[0])
+		n, ok2 := parseDec(parts[1])
+		if !ok1 || !ok2 || n > 1048576 {
+			return nil, false
+		}
+		b := make([]byte, n)
+		for i := range b {
+			b[i] = patByte(seed, i)
+		}
+		return b, true
 	}
 	if s == "" || len(s)%2 != 0 {
 		return nil, false
@@ -117,11 +138,53 @@ func parseHex(s string) ([]byte, bool) {
 	return b, err == nil
 }
 
+// showHex prints a byte string: hex up to 64 bytes, beyond that `#<length>:<digest>` (digest h := (h*31+b+1) mod 2^32).
 func showHex(b []byte) string {
 	if len(b) == 0 {
 		return "-"
 	}
+	if len(b) > 64 {
+		var h uint64
+		for _, x := range b {
+			h = (h*31 + uint64(x) + 1) % 4294967296
+		}
+		return fmt.Sprintf("#%d:%d", len(b), h)
+	}
 	return hex.EncodeToString(b)
+}
+
+// chunking parses `<k>` (uniform chunks of k bytes) or `r<seed>` (sizes 1 + x mod 8192, x := (x*1103515245+12345) mod 2^31).
+func chunking(spec string, data []byte) ([][]byte, bool) {
+	var out [][]byte
+	if strings.HasPrefix(spec, "r") {
+		x, ok := parseU(31, spec[1:])
+		if !ok {
+			return nil, false
+		}
+		for len(data) > 0 {
+			x = (x*1103515245 + 12345) % 2147483648
+			n := int(1 + x%8192)
+			if n > len(data) {
+				n = len(data)
+			}
+			out = append(out, data[:n])
+			data = data[n:]
+		}
+		return out, true
+	}
+	k, ok := parseDec(spec)
+	if !ok || k < 1 || k > 1048576 {
+		return nil, false
+	}
+	for len(data) > 0 {
+		n := int(k)
+		if n > len(data) {
+			n = len(data)
+		}
+		out = append(out, data[:n])
+		data = data[n:]
+	}
+	return out, true
 }
 
 func parseChunks(s string) ([][]byte, bool) {
@@ -486,7 +549,18 @@ func (st *state) exec(line string) string {
 		}
 		reset()
 		st.buf, st.clean = bytex.NewBufferX(), true
-		return "ok len=0"
+		return st.fresh("NewBufferX()")
+	case "news":
+		if len(f) != 2 {
+			break
+		}
+		n, ok := parseDec(f[1])
+		reset()
+		if !ok || n > 1048576 {
+			return "bad-op"
+		}
+		st.buf, st.clean = bytex.NewSizedBufferX(int(n)), true
+		return st.fresh(fmt.Sprintf("NewSizedBufferX(%d)", n))
 	case "load":
 		if len(f) != 2 {
 			break
@@ -541,7 +615,7 @@ func (st *state) exec(line string) string {
 		st.shadow = bytex.NewReadableBufferX(st.cr.left())
 		return fmt.Sprintf("ok left=%d", len(st.cr.left()))
 	}
-	if f[0] == "new" || f[0] == "load" || f[0] == "tload" || f[0] == "sload" {
+	if f[0] == "new" || f[0] == "news" || f[0] == "load" || f[0] == "tload" || f[0] == "sload" {
 		// ill-formed initialising line that the oracle does not recognise as one either: state unchanged
 		return "bad-op"
 	}
@@ -552,6 +626,14 @@ func (st *state) exec(line string) string {
 		return st.execStream(f)
 	}
 	return "bad-op"
+}
+
+// fresh: a buffer just made by a constructor holds nothing (the theorems start from the empty buffer).
+func (st *state) fresh(how string) string {
+	if n := st.buf.Len(); n != 0 || len(st.buf.Bytes()) != 0 {
+		st.hit("constructor:fresh-buffer-not-empty", fmt.Sprintf("%s holds %d unread bytes", how, n))
+	}
+	return fmt.Sprintf("ok len=%d", st.buf.Len())
 }
 
 func (st *state) checkLimitRefusal(w wval, err error) {
